@@ -22,25 +22,25 @@ type BSite struct {
 // blocking externals: display name -> short description. Matched on the
 // resolved callee (types.Object), never on source text.
 var blockingCalls = map[string]string{
-	"os.OpenFile":                     "open (blocks on a FIFO until a writer appears)",
-	"os.Open":                         "open (blocks on a FIFO until a writer appears)",
-	"(*bufio.Reader).ReadString":      "buffered read",
-	"(*bufio.Reader).ReadBytes":       "buffered read",
-	"(*bufio.Reader).ReadLine":        "buffered read",
-	"(*bufio.Reader).ReadSlice":       "buffered read",
-	"(*bufio.Reader).Read":            "buffered read",
-	"(*bufio.Reader).ReadByte":        "buffered read",
-	"(*bufio.Reader).ReadRune":        "buffered read",
-	"(*bufio.Scanner).Scan":           "buffered read",
-	"(*os.File).Read":                 "file read",
-	"io.ReadAll":                      "read until EOF",
-	"io.Copy":                         "copy until EOF",
-	"(*net/http.Server).ListenAndServe": "serve",
-	"(*net/http.Server).Serve":        "serve",
-	"(*net/http.Server).Shutdown":     "graceful shutdown (waits for active connections until its context ends)",
-	"(*sync.WaitGroup).Wait":          "wait group",
-	"(*sync.Cond).Wait":               "condition wait",
-	"time.Sleep":                      "sleep",
+	"os.OpenFile":                              "open (blocks on a FIFO until a writer appears)",
+	"os.Open":                                  "open (blocks on a FIFO until a writer appears)",
+	"(*bufio.Reader).ReadString":               "buffered read",
+	"(*bufio.Reader).ReadBytes":                "buffered read",
+	"(*bufio.Reader).ReadLine":                 "buffered read",
+	"(*bufio.Reader).ReadSlice":                "buffered read",
+	"(*bufio.Reader).Read":                     "buffered read",
+	"(*bufio.Reader).ReadByte":                 "buffered read",
+	"(*bufio.Reader).ReadRune":                 "buffered read",
+	"(*bufio.Scanner).Scan":                    "buffered read",
+	"(*os.File).Read":                          "file read",
+	"io.ReadAll":                               "read until EOF",
+	"io.Copy":                                  "copy until EOF",
+	"(*net/http.Server).ListenAndServe":        "serve",
+	"(*net/http.Server).Serve":                 "serve",
+	"(*net/http.Server).Shutdown":              "graceful shutdown (waits for active connections until its context ends)",
+	"(*sync.WaitGroup).Wait":                   "wait group",
+	"(*sync.Cond).Wait":                        "condition wait",
+	"time.Sleep":                               "sleep",
 	"(*golang.org/x/sync/errgroup.Group).Wait": "errgroup wait",
 }
 
@@ -102,12 +102,12 @@ func blockingSites(fn *ssa.Function) []BSite {
 // CtxJudge decides whether a context value is (derived from) the worker's
 // cancellation context.
 type CtxJudge struct {
-	P       *Prog
+	P *Prog
 	// NoDeadline: a context derived with a deadline or timeout is not
 	// accepted: it ends for a reason other than the shutdown of the worker
 	NoDeadline bool
-	fieldOK map[*types.Var]*bool
-	paramOK map[*ssa.Parameter]*string // nil while in progress; "" = ok; else reason
+	fieldOK    map[*types.Var]*bool
+	paramOK    map[*ssa.Parameter]*string // nil while in progress; "" = ok; else reason
 }
 
 func isContextType(t types.Type) bool {
